@@ -171,6 +171,17 @@ func (m *Component[T]) clusterDeleted(cluster k8scluster.ID) {
 		old.Close()
 	}
 	delete(m.clusters, cluster)
+	// An update that was still waiting for its new component to sync must not outlive the cluster:
+	// ForCluster consults pendingSwaps first and would keep answering with the old component.
+	if ps, f := m.pendingSwaps[cluster]; f {
+		ps.mu.Lock()
+		if ps.hasOld {
+			ps.old.Close()
+			ps.hasOld = false
+		}
+		ps.mu.Unlock()
+		delete(m.pendingSwaps, cluster)
+	}
 }
 
 func (m *Component[T]) HasSynced() bool {
